@@ -304,7 +304,7 @@ func settle(before map[string]string, db *fakesql.DB) string {
 		if time.Now().After(deadline) {
 			sort.Strings(extra)
 			var sb strings.Builder
-			fmt.Fprintf(&sb, "%d goroutine(s) with qryn frames still alive and %d result set(s) still open %v after the consumer went away", len(extra), open, settleBound)
+			fmt.Fprintf(&sb, "%d goroutine(s) with qryn frames still alive and %d result set(s) still open %v after the request was over", len(extra), open, settleBound)
 			for i, st := range extra {
 				if i >= 4 {
 					break
